@@ -1258,6 +1258,37 @@ pub fn run_c06(tier: Tier) -> i32 {
     run.finish()
 }
 
+/// liq_alpha plus, computed from the state: a margin top-up that brings an under-margined position's ratio back to a
+/// third of maintenance (positive, still liquidatable, no bad debt - whatever the price has done to it), and risk
+/// caps set just above / exactly at the current usage (open interest + 50 units, + 0; holding cap of one unit). No
+/// setting of the caps is among the stated preconditions of a liquidation.
+fn alpha_c07_topups_caps(w: &mut World, s: &EngSt) -> Vec<Act> {
+    w.restore(&s.snap);
+    let k = w.cfg.k();
+    let mut acts: Vec<Act> = liq_alpha(false).iter().map(|a| a.scaled(k)).collect();
+    let mmr = w.live_cfg(0).mmr as i128;
+    let ob = observe(w, &T2);
+    let vo = &ob.vamms[0];
+    for t in T2 {
+        let to = &ob.traders[&(0, t.to_string())];
+        if let Some(p) = &to.pos {
+            if p.size.is_zero() || to.out_spot <= 0 {
+                continue;
+            }
+            let equity = p.margin.u128() as i128 + pnl_of(p, to.out_spot) - owed_of(p, vo.cum);
+            let target = to.out_spot * (mmr / 3) / di();
+            if equity < target {
+                acts.push(Act::Dep { t: t.to_string(), v: 0, amt: (target - equity) as u128 });
+            }
+        }
+    }
+    let oi = ob.oi_notional;
+    acts.push(Act::VammCaps { by: "owner".into(), v: 0, oi_cap: Some(oi + 50 * w.d), holding_cap: None });
+    acts.push(Act::VammCaps { by: "owner".into(), v: 0, oi_cap: Some(oi.max(1)), holding_cap: None });
+    acts.push(Act::VammCaps { by: "owner".into(), v: 0, oi_cap: None, holding_cap: Some(w.d) });
+    acts
+}
+
 pub fn run_c07(tier: Tier) -> i32 {
     let mut run = Run::new("C07", tier.clone());
     run.rule = "every sequence over the alphabet up to the depth bound from seeds with under-margined positions (incl. deeply negative equity and a drained vault); in every reached state every Liquidate(by, trader) of the alphabet is attempted; non-trivial = an attempt on a position whose reference ratio is below maintenance".into();
@@ -1318,6 +1349,10 @@ pub fn run_c07(tier: Tier) -> i32 {
                 exps.push(Exp::new("liveness with price band", cb, band_alpha, vec![vec![], seed_band_liquidatable()], 4));
             }
         }
+    }
+    // top-ups that make deeply under-water positions slightly under-margined again, and tight risk caps
+    for c in tier.pick(vec![mk(true, 0, false), cfg_liq(false, false, 250_000)], vec![mk(true, 0, false), mk(false, 0, false), cfg_liq(true, false, 250_000), cfg_liq(false, false, 250_000), cfg_liq(true, false, D)]) {
+        exps.push(Exp { setup: None, name: "liveness after top-ups and under tight caps".into(), cfg: c, traders: T2.to_vec(), seeds: liq_seeds(), alpha: Alpha::Dyn(alpha_c07_topups_caps), depth: 3, init_mon: Value::Null, raw: false });
     }
     // prepaid bad debt in the books, an (almost) empty vault and a deeply under-water position whose loss a third
     // party's trade has reduced by a family of amounts: the bad debt a liquidation realises is then smaller than,
